@@ -18,12 +18,12 @@ func c20(c *Check) {
 	m := Macros{
 		"P":   "rvesting/keeper.(Keeper).GetParams($1, $0)",
 		"R":   "{P}.PerBlockReward[μ{0}]",
-		"REM": "rvesting/keeper.(Keeper).GetRemainingCoin($1, $0, cosmos-sdk/types.(*Coin).GetDenom({R}))",
+		"REM": "rvesting/keeper.(Keeper).GetRemainingCoin($1, $0, {R}.Denom)",
 		"V":   "μ{cosmos-sdk/types.NewCoins(nil)}",
 	}
 	c.Rule("C20/begin-blocker", "BeginBlocker: nothing happens unless EnableVesting; per reward the pool balance of that reward's denomination is read, a zero balance is skipped, and exactly one of {balance (if balance < reward), reward (otherwise)} is added; one transfer of the sum, only if non-zero", 14)
 	c.Spec("C20/begin-blocker", m, FnSpec{Fn: "x/rvesting/module.BeginBlocker", Effects: []Eff{
-		{Label: "read-pool", Callee: "rvesting/keeper.(Keeper).GetRemainingCoin", N: 1, Args: map[int]string{0: "$1", 1: "$0", 2: "cosmos-sdk/types.(*Coin).GetDenom({R})"}, Under: []string{"{P}.EnableVesting"}},
+		{Label: "read-pool", Callee: "rvesting/keeper.(Keeper).GetRemainingCoin", N: 1, Args: map[int]string{0: "$1", 1: "$0", 2: "{R}.Denom"}, Under: []string{"{P}.EnableVesting"}},
 		{Label: "add-remaining", Callee: "cosmos-sdk/types.(Coins).Add", Filter: "[{REM}]", N: 1, Args: map[int]string{0: "{V}"}, Under: []string{"({REM}.Amount <i {R}.Amount)", "!cosmos-sdk/types.(Coin).IsZero({REM})", "{P}.EnableVesting"}},
 		{Label: "add-reward", Callee: "cosmos-sdk/types.(Coins).Add", Filter: "[{R}]", N: 1, Args: map[int]string{0: "{V}"}, Under: []string{"({R}.Amount <=i {REM}.Amount)", "!cosmos-sdk/types.(Coin).IsZero({REM})", "{P}.EnableVesting"}},
 		{Label: "adds-total", Callee: "cosmos-sdk/types.(Coins).Add", N: 2},
